@@ -162,3 +162,162 @@ def compute_basis_rational(cx):
     cx.replay = dict(kind='exponent_lattice_rational')
     cx.invariant(0, lambda st: z3.BoolVal(True))
     cx.ensures(lambda st, r: z3.If(HASNEG.t, z3.BoolVal(r.kind == 'seq' and not r.t.eq(KER.t)), z3.BoolVal(r.kind == 'seq' and r.t.eq(KER.t))))
+
+
+@contract('invariants/invariant_ideal.py', 'InvariantIdeal.compute_basis', ['C06', 'C07'])
+def invariant_ideal_basis(cx):
+    """the exponent lattice is computed for the bases b_1..b_k and handed to the lattice ideal together with symbols s_1..s_k such that s_i is
+    the symbol that abstracts b_i**n (same position); the Groebner elimination runs over n > abstraction symbols > goal variables and only
+    elements free of n and of the abstraction symbols are reported."""
+    SYM = z3.Function('symbol_of_base', REF, REF)
+    keys = cx.seq('bases_in_table_order', DRef()); vals = cx.seq('symbols_in_table_order', DRef())
+    kq = z3.Int('kq')
+    cx.requires(z3.Length(keys.t) == z3.Length(vals.t), z3.ForAll([kq], z3.Implies(z3.And(0 <= kq, kq < z3.Length(keys.t)), vals.t[kq] == SYM(keys.t[kq]))))
+    table = V('ref', z3.Const('base_to_symbol', REF)); cfs = V('ref', z3.Const('closed_forms', REF))
+    me = cx.obj('InvariantIdeal', base_to_symbol=table, closed_forms=cfs, n=cx.ref('n'))
+    cx.param(self=me)
+    cx.call('keys', lambda ex, st, r, a, kw: keys if r.t.eq(table.t) else V('opaque'), trusted='dict.keys()/values() of the same unmodified dict enumerate corresponding entries in the same order')
+    cx.call('values', lambda ex, st, r, a, kw: vals if r.t.eq(table.t) else V('opaque'))
+    cx.call('items', lambda ex, st, r, a, kw: V('opaque'))
+    cx.set_hook('comprehension', lambda ex, st, c: V('opaque'))
+    cx.set_hook('binop', lambda ex, st, op, a, b: (VB(ex.fresh(B, 'mentions_forbidden_symbol')) if (op == 'BitAnd' and 'fs' in (a.kind, b.kind)) else (V('opaque') if ('opaque' in (a.kind, b.kind) or op in ('BitOr', 'BitAnd')) else None)))
+
+    def sorted_(ex, st, r, a, kw):
+        x = a[0]
+        if x.kind != 'seq': return V('opaque')
+        p = ex.fresh(x.t.sort(), 'sorted'); ex.axioms.append(z3.Length(p) == z3.Length(x.t))       # some permutation: nothing is known about positions
+        return V('seq', p, **x.x)
+    cx.call('sorted', sorted_)
+    cx.st.vars['$lattice_bases'] = V('none')
+
+    def exponent_lattice(ex, st, r, a, kw):
+        st.vars['$lattice_bases'] = a[0]
+        return V('ref', ex.fresh(REF, 'exponent_lattice'))
+    cx.call('ExponentLattice', exponent_lattice)
+    cx.call('compute_basis', lambda ex, st, r, a, kw: V('ref', ex.fresh(REF, 'basis')))
+
+    def lattice_ideal(ex, st, r, a, kw):
+        bases = st['$lattice_bases']; syms = a[1]
+        if bases.kind != 'seq' or syms.kind != 'seq':
+            ex.need(st, z3.BoolVal(False), 'lattice-rows-and-symbols.same-order@0', 'ensures'); return V('ref', ex.fresh(REF, 'lattice_ideal'))
+        ex.need(st, z3.And(z3.Length(bases.t) == z3.Length(syms.t),
+                           z3.ForAll([kq], z3.Implies(z3.And(0 <= kq, kq < z3.Length(bases.t)), syms.t[kq] == SYM(bases.t[kq])))),
+                'lattice-rows-and-symbols.same-order@0', 'ensures')
+        return V('ref', ex.fresh(REF, 'lattice_ideal'))
+    cx.call('LatticeIdeal', lattice_ideal, trusted='LatticeIdeal(rows, symbols): contract in this file (column i of a row is the exponent of symbols[i])')
+    gb = cx.seq('groebner_basis', DRef())
+    cx.call('groebner', lambda ex, st, r, a, kw: gb, trusted='sympy groebner (elimination order given by the symbol list)')
+    cx.call('set', lambda ex, st, r, a, kw: V('opaque')); cx.call('list', lambda ex, st, r, a, kw: a[0] if a and a[0].kind == 'seq' else V('opaque'))
+    cx.call('add', lambda ex, st, r, a, kw: VNone())
+    cx.attr('free_symbols', lambda ex, st, o: V('fs', None)); cx.field('free_symbols', lambda ex, st, o: V('fs', None))
+    cx.set_hook('empty_kinds', {'basis': V('opaque')})
+    cx.invariant(0, lambda st: z3.BoolVal(True))
+    cx.ensures(lambda st, r: z3.BoolVal(True))
+
+
+@contract('invariants/exponent_lattice.py', 'ExponentLattice._integer_kernel_basis', ['C16', 'C07'])
+def integer_kernel_basis(cx):
+    """every step of the elimination is an ELEMENTARY UNIMODULAR row operation on [rows^T | identity]: either  row_r := row_r - q*row_s  with an
+    integer q and r != s, or a swap of two rows.  (Lemma L-unimod, stated: a product of such operations is unimodular, so the rows of the right
+    block stay a basis of Z^k and the rows whose left block vanishes generate the whole integer kernel -- completeness, C07; a scaled operation
+    p*row_r - q*row_s keeps every reported vector in the kernel but loses generators.)  Index safety of all row/column accesses."""
+    m = cx.int('number_of_equations'); nu = cx.int('num_unknowns')
+    rows = V('rowsarg', None)
+    cx.param(rows=rows, num_unknowns=nu)
+    cx.requires(m.t >= 0, nu.t >= 1)
+    LEN = m.t + nu.t
+    RowArr = z3.ArraySort(I, z3.SeqSort(I))
+    W0 = z3.Const('work_initial', RowArr)
+    rq, jq = z3.Int('rq'), z3.Int('jq')
+
+    def mat(w): return V('mat', w)
+    def lens(w): return z3.ForAll([rq], z3.Implies(z3.And(0 <= rq, rq < nu.t), z3.Length(z3.Select(w, rq)) == LEN))
+    cx.call('len', lambda ex, st, r, a, kw: VI(m.t) if a[0].kind == 'rowsarg' else NotImplemented)
+    cx.st.vars['$pending'] = V('opaque', None)          # a row copy that is the first half of a swap: (destination, source, matrix before)
+
+    def comp(ex, st, c):
+        src = c.x['src']
+        tgt = c.x['target']
+        if src.kind == 'range' and isinstance(c.x['elt'], ast.BinOp):                      # the initial [rows^T | identity]
+            st.pc.append(lens(W0)); return mat(W0)
+        if src.kind == 'range' and c.x['conds']:                                           # nonzero = [r for r in range(pivot, k) if work[r][col] != 0]
+            w = st['work'].t; col = toint(st['col']); lo, hi = src.x['lo'], src.x['hi']
+            nz = ex.fresh(z3.SeqSort(I), 'nonzero'); i_ = ex.fresh(I, 'i')
+            st.pc.append(z3.ForAll([i_], z3.Implies(z3.And(0 <= i_, i_ < z3.Length(nz)),
+                                                    z3.And(lo <= nz[i_], nz[i_] < hi, z3.Select(w, nz[i_])[col] != 0))))
+            return V('seq', nz, ek=DI)
+        if src.kind == 'zip':                                                              # [a - q*b for a, b in zip(row_r, row_s)]
+            ra, rb = src.x['srcs']
+            elt = c.x['elt']
+            ok = (isinstance(elt, ast.BinOp) and isinstance(elt.op, (ast.Sub, ast.Add)) and isinstance(elt.left, ast.Name) and isinstance(elt.right, ast.BinOp)
+                  and isinstance(elt.right.op, ast.Mult) and isinstance(tgt, ast.Tuple) and len(tgt.elts) == 2 and elt.left.id == tgt.elts[0].id)
+            mult = None
+            if ok:
+                a_, b_ = tgt.elts[0].id, tgt.elts[1].id
+                l, r = elt.right.left, elt.right.right
+                if isinstance(r, ast.Name) and r.id == b_ and not any(isinstance(y, ast.Name) and y.id in (a_, b_) for y in ast.walk(l)): mult = l
+                elif isinstance(l, ast.Name) and l.id == b_ and not any(isinstance(y, ast.Name) and y.id in (a_, b_) for y in ast.walk(r)): mult = r
+            new = ex.fresh(z3.SeqSort(I), 'new_row')
+            if mult is None:
+                return V('seq', new, ek=DI, elementary=None, shape=ast.unparse(elt))
+            q = toint(ex.ev(mult, c.x['st']))
+            if isinstance(elt.op, ast.Add): q = -q
+            st.pc += [z3.Length(new) == z3.Length(ra.t), z3.ForAll([jq], z3.Implies(z3.And(0 <= jq, jq < z3.Length(ra.t)), new[jq] == ra.t[jq] - q * rb.t[jq]))]
+            return V('seq', new, ek=DI, elementary=(ra.t, rb.t, q))
+        if src.kind in ('opaque', 'mat'): return V('opaque')
+        return None
+    import ast
+    cx.set_hook('comprehension', comp); cx.set_hook('materialise', ('work', 'nonzero'))
+
+    def index(ex, st, o, i):
+        if o.kind != 'mat': return None
+        r = toint(i)
+        ex.need(st, z3.And(0 <= r, r < nu.t), 'row-index-in-bounds@0', 'safety')
+        return V('seq', z3.Select(o.t, r), ek=DI, row_of=(o.t, r))
+    cx.set_hook('index_hook', index)
+    cx.set_hook('slice_hook', lambda ex, st, o, sl: V('opaque') if o.kind in ('mat', 'opaque', 'seq') else None)
+
+    def min_(ex, st, r, a, kw):
+        s = a[0]
+        if s.kind != 'seq' or 'key' not in kw: return NotImplemented
+        w = ex.fresh(I, 'argmin'); st.pc += [0 <= w, w < z3.Length(s.t)]
+        return VI(s.t[w])
+    cx.call('min', min_, trusted='min(seq, key=...): an element of the sequence')
+    cx.call('gcd', lambda ex, st, r, a, kw: VI(ex.fresh(I, 'gcd')))
+
+    def store(ex, st, o, k, v):
+        if o.kind != 'mat': return False
+        r = toint(k); w = o.t
+        ex.need(st, z3.And(0 <= r, r < nu.t), 'row-index-in-bounds@0', 'safety')
+        if v.kind == 'comp': v = ex.materialise(st, v)
+        if v.kind != 'seq': raise OutOfReach('row store')
+        pend = st['$pending'].t
+        if v.get('row_of') is not None:                       # a row copy: half of a swap
+            base, src = v.get('row_of')
+            if pend is None:
+                st.vars['$pending'] = V('opaque', (r, src, base))
+            else:
+                r1, src1, base1 = pend
+                ex.need(st, z3.And(src1 == r, src == r1, z3.BoolVal(base.eq(base1))), 'row-copy.is-half-of-a-swap@0', 'ensures')
+                st.vars['$pending'] = V('opaque', None)
+            st.vars['work'] = mat(z3.Store(w, r, v.t))
+            return True
+        el = v.get('elementary')
+        if el is None:
+            ex.need(st, z3.BoolVal(False), 'row-operation.is-elementary@0', 'ensures', witness={'row_expression': v.get('shape'), 'expected': 'a - q*b with an integer q'})
+        else:
+            ra, rb, q = el
+            ex.need(st, z3.Exists([rq], z3.And(0 <= rq, rq < nu.t, rq != r, ra == z3.Select(w, r), rb == z3.Select(w, rq))), 'row-operation.is-elementary@0', 'ensures')
+        st.vars['work'] = mat(z3.Store(w, r, v.t))
+        return True
+    cx.set_hook('subscript_store_hook', store)
+    cx.set_hook('loop_ghosts', ['$pending'])
+
+    def inv(st):
+        return z3.And(lens(st['work'].t), z3.BoolVal(st['$pending'].t is None), 0 <= toint(st['pivot']), toint(st['pivot']) <= nu.t)
+    def inv_inner(st):          # the pivot row of this round is not touched by the round: its entry in the current column stays non-zero
+        rm = toint(st['r_min'])
+        return z3.And(inv(st), 0 <= rm, rm < nu.t, z3.Select(st['work'].t, rm)[toint(st['col'])] != 0)
+    cx.invariant(0, inv); cx.invariant(1, inv); cx.invariant(2, inv_inner)
+    cx.ensures(lambda st, r: z3.BoolVal(st['$pending'].t is None))
+    cx.lemmas.append(('L-unimod: a product of elementary row operations (row_r -= q*row_s, swaps) is unimodular; the kernel rows of a unimodular echelon transformation generate the integer kernel', None))
